@@ -165,6 +165,19 @@ func VerifHarness_C05_two_datagrams() {
 		w := turnA.Writes[want-1]
 		isCD := vAnd(w.P[0] >= 0x40, w.P[0] <= 0x7F)
 		vAssert(isCD == by2, "C05.channeldata_only_for_the_exact_bound_source")
+		if by2 {
+			// ChannelData frame of the second datagram: header, payload, padding. The padding is zero on the unchanged
+			// tree; anything data-dependent there would hand the client bytes of an EARLIER datagram (possibly one from
+			// an unauthorised sender that was discarded).
+			vAssert(len(w.P) == 4+(len(d2)+3)/4*4, "C05.channeldata_to_client_is_padded")
+			for i := 4 + len(d2); i < len(w.P); i++ {
+				vAssert(w.P[i] == 0, "C02.channeldata_padding_carries_nothing_of_an_earlier_datagram")
+				vAssert(w.P[i] == 0, "C05.channeldata_padding_is_zero")
+			}
+			for i := 0; i < len(d2); i++ {
+				vAssert(w.P[4+i] == d2[i], "C05.second_payload_byte_identical")
+			}
+		}
 		if !by2 {
 			// Data indication: XOR-PEER-ADDRESS port is the real source port
 			port := (int(w.P[26])<<8 | int(w.P[27])) ^ 0x2112
